@@ -46,7 +46,7 @@ def property_selftests(run, outdir, meta):
     accepted and each of these single changes of what was observed must be rejected:
       retention: an expired own file reported as still there / a look-alike survivor reported as gone;
       Read: one byte of the returned text changed / the reported offset moved by one / an answer turned into nil;
-      suppression: an emitted line reported as not written although no line with its id was emitted before."""
+      suppression: a line written exactly one interval after the last line of its id reported as not written."""
     job = [j for j in meta.get("jobs", []) if j["spec"] == "Trace_FileLogger"][0]
     hists = vf.split_histories(open(os.path.join(outdir, job["trace"])).read().splitlines())
     spec = job["spec"]
@@ -103,9 +103,10 @@ def property_selftests(run, outdir, meta):
         if "read_answer_turned_nil_rejected" in res:
             break
     # ---- suppression
-    for ev in of("gate"):
+    for ev in of("supp"):
         for i, e in enumerate(ev):
-            if e["ev"] != "Log" or e["kind"] not in ("E", "P"):
+            # "delta": same id as an emitted line, exactly one interval later -- the first moment suppression is forbidden
+            if e["ev"] != "Log" or e["kind"] != "P" or not bytes(e["s"]).startswith(b"delta"):
                 continue
             adds = [x for x in e["obs"]["files"] if x["add"] and not x["whole"]]
             if len(adds) != 1:
@@ -117,12 +118,12 @@ def property_selftests(run, outdir, meta):
                 if x["add"] and not x["whole"]:
                     x["size"] -= len(x["add"])
                     x["add"] = []
-            res["first_line_of_an_id_reported_suppressed_rejected"] = _judge(run, outdir, spec, "supp_first", a, False)
+            res["line_one_interval_after_its_id_reported_suppressed_rejected"] = _judge(run, outdir, spec, "supp_first", a, False)
             break
-        if "first_line_of_an_id_reported_suppressed_rejected" in res:
+        if "line_one_interval_after_its_id_reported_suppressed_rejected" in res:
             break
     need = ["expired_file_reported_kept_rejected", "survivor_reported_deleted_rejected", "read_text_byte_changed_rejected",
-            "read_offset_moved_rejected", "read_answer_turned_nil_rejected", "first_line_of_an_id_reported_suppressed_rejected"]
+            "read_offset_moved_rejected", "read_answer_turned_nil_rejected", "line_one_interval_after_its_id_reported_suppressed_rejected"]
     missing = [k for k in need if not res.get(k)]
     if missing:
         raise vf.MachineryError("property self-tests found no suitable history for: %s" % missing)
